@@ -55,12 +55,20 @@ func tupleOf(names []string) string {
 	return "(" + strings.Join(names, ", ") + ")"
 }
 
+// vFirst: a loop over a list whose element type mentions the abstract value type takes V in front of the list
+func (lp *gtLoop) vFirst() bool {
+	return lp.list && len(lp.implicit) > 0 && lp.implicit[0] == "V"
+}
+
 func (lp *gtLoop) nextText(state []string) string {
 	first := "fuel"
 	if lp.list {
 		first = "rest"
 	}
 	parts := append([]string{lp.name, first}, lp.implicit...)
+	if lp.vFirst() {
+		parts = append([]string{lp.name, "V", first}, lp.implicit[1:]...)
+	}
 	parts = append(parts, lp.free...)
 	parts = append(parts, state...)
 	return strings.Join(parts, " ")
@@ -69,6 +77,9 @@ func (lp *gtLoop) nextText(state []string) string {
 func (lp *gtLoop) callText(init, free []string) string {
 	parts := append([]string{lp.name}, init[0])
 	parts = append(parts, lp.implicit...)
+	if lp.vFirst() {
+		parts = append([]string{lp.name, "V", init[0]}, lp.implicit[1:]...)
+	}
 	parts = append(parts, free...)
 	parts = append(parts, init[1:]...)
 	return strings.Join(parts, " ")
@@ -269,7 +280,7 @@ func (tr *gtTr) loop(sp loopSpec, env *venv, next cont) gnode {
 						elemPre = fmt.Sprintf("let %s := Z.of_N %s in ", elem, elemBinder)
 					}
 					if sp.valName != "_" {
-						e2.declare(sp.valName, &gvar{goName: sp.valName, typ: et, coq: elem})
+						e2.declare(sp.valName, &gvar{goName: sp.valName, typ: et, coq: elem, asTuple: et.kind == kStruct})
 					}
 					if keyCoq != "" {
 						e2.declare(sp.keyName, &gvar{goName: sp.keyName, typ: basicInts["int"], coq: keyCoq})
@@ -343,8 +354,12 @@ func (tr *gtTr) loop(sp loopSpec, env *venv, next cont) gnode {
 		var sb strings.Builder
 		fmt.Fprintf(&sb, "(* %s: %s of %s; state: %s *)\n", tr.p.dir, sp.what, strings.TrimPrefix(outerFn.key, tr.p.dir+":"), strings.Join(keyStrings(state), ", "))
 		if sp.list != nil {
-			fmt.Fprintf(&sb, "Fixpoint %s (l : %s) %s {struct l} : option (go_flow (%s) (%s)) :=\n  match l with\n  | [] => Some (go_exit %s)\n  | %s :: rest =>\n    %s%s\n  end.\n",
-				lp.name, sp.list.typ.coq(), strings.Join(binders, " "), stT, tr.resultType(), tupleOf(entryState), elemBinder, elemPre, render(node, mLoop, "    "))
+			vb, rb := "", binders
+			if lp.vFirst() && len(binders) > 0 && binders[0] == "(V : Type)" {
+				vb, rb = "(V : Type) ", binders[1:]
+			}
+			fmt.Fprintf(&sb, "Fixpoint %s %s(l : %s) %s {struct l} : option (go_flow (%s) (%s)) :=\n  match l with\n  | [] => Some (go_exit %s)\n  | %s :: rest =>\n    %s%s\n  end.\n",
+				lp.name, vb, sp.list.typ.coq(), strings.Join(rb, " "), stT, tr.resultType(), tupleOf(entryState), elemBinder, elemPre, render(node, mLoop, "    "))
 		} else {
 			fmt.Fprintf(&sb, "Fixpoint %s (fuel : nat) %s {struct fuel} : option (go_flow (%s) (%s)) :=\n  match fuel with\n  | O => None (* out of fuel *)\n  | S fuel =>\n    %s\n  end.\n",
 				lp.name, strings.Join(binders, " "), stT, tr.resultType(), render(node, mLoop, "    "))
